@@ -18,6 +18,7 @@ import (
 	"strconv"
 	"strings"
 	"sync"
+	"sync/atomic"
 	"testing"
 	"time"
 
@@ -60,6 +61,9 @@ type upstream struct {
 	expectHMAC bool
 	st         *stack
 
+	label  string // suffix of the upstream's name in descriptors ("" for the plain HTTP/1.1 upstreams)
+	noSpec bool   // a second host name served by another upstream's (rewrite) route
+
 	// fault-injecting upstreams only
 	fault bool
 	adv   *advBackend
@@ -70,9 +74,14 @@ type config struct {
 	stacks   []*stack
 	ups      [nKinds]*upstream
 	faultUps []*upstream // rsa+hmac, rsa-only, hmac-only, each in front of a fault-injecting upstream
+	tls      []*tlsBackend
+	tlsUps   [nKinds][]*upstream // the same signing set-ups in front of TLS upstreams (simple and rewrite routes)
 }
 
 func (c *config) close() {
+	for _, b := range c.tls {
+		b.close()
+	}
 	for _, u := range c.faultUps {
 		if u.adv != nil {
 			u.adv.close()
@@ -154,10 +163,46 @@ func newConfig(rep *vh.Report, seed int64, ci int) (*config, error) {
 	}
 	fa, fb, fe := mkFault(kBoth, true), mkFault(kRSAOnly, false), mkFault(kHMACOnly, true)
 
+	// TLS upstreams: one that offers h2, one that speaks HTTP/1.1 only; reached through simple routes with an
+	// explicit https `to` and through a rewrite route whose template takes the port from the host name
+	tH2, tH1 := newTLSBackend(fmt.Sprintf("tls-h2-c%d", ci), true), newTLSBackend(fmt.Sprintf("tls-h1-c%d", ci), false)
+	cfg.tls = []*tlsBackend{tH2, tH1}
+	mkTLS := func(kind int, tag, label, to string, hmac bool) *upstream {
+		u := mk(kind)
+		u.label = label
+		u.host = tag + "-" + u.host
+		u.spec.From = u.host
+		u.spec.Service += tag
+		u.spec.To = to
+		u.spec.TLSSkipVerify = true
+		if hmac {
+			u.secret = word(r, 16)
+			u.spec.HMACKey = "sha256:" + u.secret
+		}
+		cfg.tlsUps[kind] = append(cfg.tlsUps[kind], u)
+		return u
+	}
+	ta := mkTLS(kBoth, "tlsa", " via TLS(h2-capable upstream)", "https://"+tH2.addr(), true)
+	tb := mkTLS(kRSAOnly, "tlsb", " via TLS(http/1.1-only upstream)", "https://"+tH1.addr(), false)
+	tb.spec.PreserveHost = true
+	te := mkTLS(kHMACOnly, "tlse", " via TLS(h2-capable upstream)", "https://"+tH2.addr(), true)
+	// rewrite route: rw-<port>.cN.c12.test -> https://127.0.0.1:<port>
+	rw1 := mkTLS(kBoth, "rw", " via rewrite route to TLS(h2-capable upstream)", "https://127.0.0.1:$1", true)
+	rw1.spec.Type = "rewrite"
+	rw1.spec.From = fmt.Sprintf(`^rw-([0-9]+)\.c%d\.c12\.test$`, ci)
+	rw1.host = fmt.Sprintf("rw-%s.c%d.c12.test", tH2.port(), ci)
+	rw2 := &upstream{kind: kBoth, label: " via rewrite route to TLS(http/1.1-only upstream)", noSpec: true, secret: rw1.secret}
+	rw2.spec = rw1.spec
+	rw2.host = fmt.Sprintf("rw-%s.c%d.c12.test", tH1.port(), ci)
+	cfg.tlsUps[kBoth] = append(cfg.tlsUps[kBoth], rw2)
+	cfg.tlsUps[kBothGroups] = append(cfg.tlsUps[kBothGroups], rw1, rw2)
+
 	build := func(signer bool, ups ...*upstream) (*stack, error) {
 		var specs []sut.UpstreamSpec
 		for _, u := range ups {
-			specs = append(specs, u.spec)
+			if !u.noSpec {
+				specs = append(specs, u.spec)
+			}
 		}
 		ps, err := sut.NewProxyStack(sut.ProxyOpts{Signer: signer, Upstreams: specs, CookieName: cookieName})
 		if err != nil {
@@ -168,9 +213,11 @@ func newConfig(rep *vh.Report, seed int64, ci int) (*config, error) {
 			u.st = st
 			u.expectRSA = signer && !u.spec.SkipRequestSigning
 			u.expectHMAC = u.spec.HMACKey != "" && !u.spec.SkipRequestSigning
-			if u.fault {
+			switch {
+			case u.fault:
 				u.adv.start(ps.Backends[u.spec.Service])
-			} else {
+			case u.label != "":
+			default:
 				cfg.ups[u.kind] = u
 			}
 			// what an upstream does once: fetch the published keys from the proxy under its own host name
@@ -197,13 +244,13 @@ func newConfig(rep *vh.Report, seed int64, ci int) (*config, error) {
 		}
 		return st, nil
 	}
-	s1, err := build(true, a, b, c, d, fa, fb)
+	s1, err := build(true, a, b, c, d, fa, fb, ta, tb, rw1, rw2)
 	if err != nil {
 		cfg.close()
 		return nil, err
 	}
 	cfg.stacks = append(cfg.stacks, s1)
-	s2, err := build(false, e, f, fe)
+	s2, err := build(false, e, f, fe, te)
 	if err != nil {
 		cfg.close()
 		return nil, err
@@ -403,7 +450,10 @@ func buildCase(env vh.Env, cfg *config, ci, i int) (*kase, sut.Req, *aux) {
 	raw := dim(2) == 1
 	connSlot := dim(16)
 
-	k := &kase{Index: i, Config: ci, Upstream: kindNames[up.kind], Host: up.host, Method: method}
+	if alts := cfg.tlsUps[up.kind]; len(alts) > 0 && r.Intn(4) == 0 {
+		up = alts[r.Intn(len(alts))] // the same signing set-up in front of a TLS upstream
+	}
+	k := &kase{Index: i, Config: ci, Upstream: kindNames[up.kind] + up.label, Host: up.host, Method: method}
 	ax := &aux{up: up, connIdx: -1, clientSigV: map[string]string{}}
 	ps := up.st.ps
 
@@ -768,6 +818,8 @@ func tamper(r *rand.Rand, v view, kind string) (view, bool) {
 type monitor struct {
 	rep *vh.Report
 	env vh.Env
+
+	faultCases, faultReused int64 // fault cases run / of which the request arrived on a re-used upstream connection
 }
 
 // explain looks for the reason of a failed verification by re-verifying over variants of what the upstream
@@ -825,6 +877,16 @@ func explain(v view, hit sut.Hit, ax *aux, twin *sut.Hit, ok func(view, string, 
 	}
 	if restored != nil && withClientCL(*restored) {
 		return "connection-token"
+	}
+	// HTTP/2 carries one field per cookie and the receiving server re-joins them with "; "
+	if strings.HasPrefix(hit.Header.Get(protoHeader), "HTTP/2") {
+		t := v.clone()
+		for j, c := range t.Header["Cookie"] {
+			t.Header["Cookie"][j] = strings.Replace(c, "; ", ";", -1)
+		}
+		if ok(t, ",", false) {
+			return "cookie-header-rejoined-by-http2"
+		}
 	}
 	// diagnosis only (names which part of the signed form differs from the received one)
 	type variant struct {
@@ -894,7 +956,12 @@ func (m *monitor) checkHit(i int, k *kase, ax *aux, hit sut.Hit, twin *sut.Hit) 
 	}
 
 	rep.Count("forwarded", 1)
-	rep.Count("forwarded_upstream_"+kindNames[up.kind], 1)
+	rep.Count("forwarded_upstream_"+kindNames[up.kind]+up.label, 1)
+	proto := hit.Header.Get(protoHeader)
+	if proto != "" {
+		rep.Count("tls_upstream_hits_over_"+proto, 1)
+	}
+	h2 := strings.HasPrefix(proto, "HTTP/2")
 	rep.Count("forwarded_auth_"+k.Auth, 1)
 	rep.Count("forwarded_method_"+k.Method, 1)
 	if hit.Host == up.host {
@@ -935,6 +1002,9 @@ func (m *monitor) checkHit(i int, k *kase, ax *aux, hit sut.Hit, twin *sut.Hit) 
 		if len(clh) > 0 || hit.ContentLen != -1 {
 			rep.Violate("c12", i, "framing: chunked-request-with-content-length-at-upstream"+sfx, fmt.Sprintf("TE=%v Content-Length=%v", hit.TE, clh), k)
 		}
+	case h2 && len(clh) == 0 && hit.ContentLen == -1:
+		// HTTP/2 has no chunked coding: a streamed body simply carries no length
+		rep.Count("h2_streamed_body_without_length", 1)
 	case len(clh) > 1 || (len(clh) == 1 && clh[0] != strconv.Itoa(len(hit.Body))) || hit.ContentLen != int64(len(hit.Body)):
 		rep.Violate("c12", i, "framing: content-length-incoherent-with-body-at-upstream"+sfx, fmt.Sprintf("Content-Length=%v parsed=%d body=%d", clh, hit.ContentLen, len(hit.Body)), k)
 	}
@@ -1091,6 +1161,27 @@ func (m *monitor) checkHit(i int, k *kase, ax *aux, hit sut.Hit, twin *sut.Hit) 
 				rep.Count("session_cookie_stripped_"+k.CookieCls, 1)
 			}
 		}
+		if proto != "" {
+			rep.Count("tls_upstream_hits_verified", 1)
+			if up.spec.Type == "rewrite" {
+				rep.Count("rewrite_route_hits_verified", 1)
+			}
+			n := 0
+			for _, line := range hit.Header["Cookie"] {
+				n += len(strings.Split(line, ";"))
+			}
+			switch {
+			case n >= 2:
+				rep.Count("tls_upstream_verified_with_2_or_more_cookies_remaining", 1)
+			case n == 1:
+				rep.Count("tls_upstream_verified_with_1_cookie_remaining", 1)
+			default:
+				rep.Count("tls_upstream_verified_with_0_cookies_remaining", 1)
+			}
+			if k.Chunked {
+				rep.Count("tls_upstream_verified_chunked_client_body", 1)
+			}
+		}
 		multi := false
 		for _, c := range covered {
 			if len(nonEmpty(hit.Header[c])) > 1 {
@@ -1140,7 +1231,7 @@ func (m *monitor) runCase(cfg *config, ci, i int) {
 		tax.protTokens, tax.connIdx = nil, -1
 		trs := ps.Client.Do(trq)
 		rep.Eval()
-		th := ps.Hits(trs.ID)
+		th := cfg.hits(ps, trs.ID)
 		tk.Status, tk.Forwarded = trs.Status, len(th) > 0
 		if len(th) == 1 {
 			twin = &th[0]
@@ -1150,7 +1241,7 @@ func (m *monitor) runCase(cfg *config, ci, i int) {
 
 	rs := ps.Client.Do(rq)
 	rep.Eval()
-	hits := ps.Hits(rs.ID)
+	hits := cfg.hits(ps, rs.ID)
 	k.Status, k.Forwarded = rs.Status, len(hits) > 0
 	rep.Count(fmt.Sprintf("status_%d", rs.Status), 1)
 	if rs.Err != nil {
@@ -1182,7 +1273,7 @@ func (m *monitor) runCase(cfg *config, ci, i int) {
 func TestProp(t *testing.T) {
 	env := vh.GetEnv()
 	rep := vh.NewReport("C12", "exploration")
-	rep.Rule("cases stride over method(7) x auth(session cookie | skip_auth_regex) x upstream kind(rsa+hmac, rsa-only/preserve_host, rsa+hmac+groups+inject_request_headers, skip_request_signing, hmac-only, none) x body class(11: none/empty/1B/binary/form/64KiB/1MiB/chunked empty,small,64KiB/text) x transport(Go client | hand-written raw request) x Connection class(none/benign/hostile); per case random: state of each covered header (absent/single/two lines/empty/odd spacing/folded/mixed-case name/commas), cookies (session cookie first/middle/last/repeated/two Cookie lines, odd cookies), 18 path classes, 15 query classes, non-canonical Content-Length, client-supplied Sso-Signature/kid/Gap-Signature. distinct = (upstream kind, method, auth, body, transport, path, query, cookie, connection, content-length class) of requests that were forwarded AND whose signature was verified by the monitor. Every 10th case is an UPSTREAM CONNECTION FAULT case: method(GET/PUT/DELETE/POST/PATCH) x (no | Idempotency-Key | X-Idempotency-Key) x body(none/sized small,8KiB/chunked small,8KiB,empty) x fault(close after reading the request | close before reading the body | answer with Connection: close then RST | one byte then close | none) x upstream(rsa+hmac, rsa-only, hmac-only) x auth, sent right after a warm-up request so that the proxy re-uses a keep-alive connection to a fault-injecting upstream; the same oracle is applied to every arrival (incl. re-sent requests) the upstream records")
+	rep.Rule("cases stride over method(7) x auth(session cookie | skip_auth_regex) x upstream kind(rsa+hmac, rsa-only/preserve_host, rsa+hmac+groups+inject_request_headers, skip_request_signing, hmac-only, none) x body class(11: none/empty/1B/binary/form/64KiB/1MiB/chunked empty,small,64KiB/text) x transport(Go client | hand-written raw request) x Connection class(none/benign/hostile); per case random: state of each covered header (absent/single/two lines/empty/odd spacing/folded/mixed-case name/commas), cookies (session cookie first/middle/last/repeated/two Cookie lines, odd cookies), 18 path classes, 15 query classes, non-canonical Content-Length, client-supplied Sso-Signature/kid/Gap-Signature. distinct = (upstream kind, method, auth, body, transport, path, query, cookie, connection, content-length class) of requests that were forwarded AND whose signature was verified by the monitor. Every 10th case is an UPSTREAM CONNECTION FAULT case: method(GET/PUT/DELETE/POST/PATCH) x (no | Idempotency-Key | X-Idempotency-Key) x body(none/sized small,8KiB/chunked small,8KiB,empty) x fault(close after reading the request | close before reading the body | answer with Connection: close then RST | one byte then close | none) x upstream(rsa+hmac, rsa-only, hmac-only) x auth, sent right after a warm-up request so that the proxy re-uses a keep-alive connection to a fault-injecting upstream; the same oracle is applied to every arrival (incl. re-sent requests) the upstream records. A quarter of the regular cases go to the same signing set-ups in front of TLS upstreams (one offering h2, one HTTP/1.1 only; simple routes with an https `to` and a rewrite route); the protocol each hit arrived over is counted")
 	rep.Assume("the canonical form is the one documented in the request signer's doc comment (covered headers in the documented order, ','-joined non-empty values, headers without values skipped; PATH(?QUERY); body), with PATH = the decoded path of the request URL as the receiving server parses it")
 	rep.Assume("RSA PKCS#1 v1.5 and HMAC signatures are deterministic, so a twin request without the hostile Connection header shows what the proxy signed")
 	rep.Assume("only bare-host `to` targets are configured (as the property says)")
@@ -1233,6 +1324,8 @@ func TestProp(t *testing.T) {
 		"identity_headers_verified": 50, "rsa_verified_auth_session": 50, "rsa_verified_auth_skip-auth": 50,
 		"rsa_uncovered_change_still_verifies": 100, "hmac_uncovered_change_still_verifies": 100,
 		"certs_fetched_keys": 1,
+		"tls_upstream_hits_verified": 100, "rewrite_route_hits_verified": 30,
+		"tls_upstream_verified_with_2_or_more_cookies_remaining": 30, "tls_upstream_verified_chunked_client_body": 10,
 		"faulted-on-reused-connection": 30, "replays_observed": 10, "replayed_hits_checked": 10,
 	}
 	for _, mth := range methods {
@@ -1244,6 +1337,16 @@ func TestProp(t *testing.T) {
 		floors["hmac_tamper_rejected_"+kind] = 20
 	}
 	floors["hmac_tamper_rejected_method"] = 20
+	if n := atomic.LoadInt64(&m.faultCases); n >= 50 && atomic.LoadInt64(&m.faultReused) == 0 {
+		// Every request of a fault case arrived on a fresh connection although a warm-up request to the same
+		// upstream had completed immediately before: this proxy does not keep upstream connections alive, so
+		// net/http never re-sends anything and the fault slice has nothing to observe (not a coverage gap).
+		rep.Count("dontcare_proxy_never_reuses_upstream_connections", int(n))
+		rep.Extra("fault_slice", "vacuous: the proxy's transport re-used no upstream connection in any of the fault cases")
+		for _, name := range []string{"faulted-on-reused-connection", "replays_observed", "replayed_hits_checked"} {
+			floors[name] = 0
+		}
+	}
 	for name, min := range floors {
 		if only >= 0 {
 			min = 0
